@@ -34,11 +34,20 @@ type vInfo struct {
 	name string
 	size int64
 	dir  bool
+	link bool // the entry is an alias (symbolic link): what lstat / a directory read reports
 }
 
 func (i *vInfo) Name() string       { return i.name }
 func (i *vInfo) Size() int64        { return i.size }
-func (i *vInfo) Mode() fs.FileMode  { return 0644 }
+func (i *vInfo) Mode() fs.FileMode {
+	if i.link {
+		return fs.ModeSymlink | 0777
+	}
+	if i.dir {
+		return fs.ModeDir | 0755
+	}
+	return 0644
+}
 func (i *vInfo) ModTime() time.Time { return time.Time{} }
 func (i *vInfo) IsDir() bool        { return i.dir }
 func (i *vInfo) Sys() any           { return nil }
